@@ -9,7 +9,7 @@ import warnings
 
 import numpy as np
 
-from ..core import Violation, require, Skip, digest, todense, rand_like, relerr, is_dyad
+from ..core import Violation, require, Skip, Inconclusive, digest, todense, rand_like, relerr, is_dyad
 from ..oracles import catalogue
 
 ID = "C04"
@@ -29,7 +29,7 @@ FLOORS = {"quick": {"cases_held": 600, "linearity_checks": 600, "twice_checks": 
                     "examples_completed": 12, "example_monitored_calls": 1000},
           "thorough": {"cases_held": 20000, "linearity_checks": 20000, "twice_checks": 20000, "mon_sensitivity": 100000, "mon_reset": 60000,
                        "examples_completed": 36, "example_monitored_calls": 5000}}
-TIMEOUT_CASE = 600
+TIMEOUT_CASE = 1800
 
 
 def _examples():
@@ -48,11 +48,57 @@ def plan(tier, seed):
         fams += [f] * w
     cases = [{"family": fams[i % len(fams)], "i": i} for i in range(n)]
     cases += [{"family": "nearspan", "i": i} for i in range(60 if tier == "quick" else 600)]
+    if tier == "thorough":
+        # the repository's own test-suite as a workload under all online monitors (one case per test file)
+        cases += [{"family": "testsuite", "file": f} for f in _testfiles()]
     # the repository's own example scripts as end-to-end workloads under the purity monitors
     ex, _ = _examples()
     for mesh in ([(12, 6, 4)] if tier == "quick" else [(12, 6, 4), (8, 8, 2), (16, 4, 4)]):
         cases += [{"family": "example", "script": e, "mesh": list(mesh), "maxit": 4 if tier == "quick" else 8} for e in ex]
     return cases
+
+
+def _testfiles():
+    import glob
+    import os
+    root = os.path.join(os.environ.get("PMV_REPO", "/repo"), "tests")
+    if not os.path.isdir(root):
+        root = "/repo/tests"
+    return sorted(os.path.basename(p) for p in glob.glob(os.path.join(root, "test_*.py")))
+
+
+def run_testsuite(case, ctx):
+    """one test file of the repository run by pytest in a child process with pmv.pytest_plugin: whatever the monitors flag while the
+    tests drive the library is the verdict (the outcome of the tests is not: the baseline has failing tests)."""
+    import json
+    import os
+    import subprocess
+    import sys
+    import tempfile
+    repo = os.environ.get("PMV_REPO", "/repo")
+    root = repo if os.path.isdir(os.path.join(repo, "tests")) else "/repo"
+    here = os.path.dirname(os.path.dirname(os.path.dirname(os.path.abspath(__file__))))
+    with tempfile.TemporaryDirectory() as tmp:
+        out = os.path.join(tmp, "mon.json")
+        env = dict(os.environ, PMV_PLUGIN_OUT=out, PYTHONPATH=os.pathsep.join([repo, here, os.path.join(here, ".deps")]), MPLBACKEND="Agg")
+        # the tests import pymoto from the current directory: run them from a directory that only holds the tests
+        tdir = os.path.join(tmp, "t")
+        os.makedirs(tdir)
+        import shutil
+        shutil.copytree(os.path.join(root, "tests"), os.path.join(tdir, "tests"))
+        r = subprocess.run([sys.executable, "-m", "pytest", "-q", "--no-header", "-p", "no:cacheprovider", "-p", "pmv.pytest_plugin",
+                            "--timeout=1500", os.path.join("tests", case["file"])], cwd=tdir, env=env, capture_output=True, text=True,
+                           timeout=1700)
+        if not os.path.exists(out):
+            raise Inconclusive("pytest child wrote no monitor report", tail=(r.stdout + r.stderr)[-300:])
+        rep = json.load(open(out))
+    n = sum(v for k, v in rep["counters"].items() if k.startswith("mon_"))
+    ctx.count("testsuite_monitored_calls", n)
+    ctx.count("testsuite_files")
+    for mech, det in rep["violations"]:
+        ctx.violate("testsuite/" + mech, **det)
+    return {"key": "testsuite/" + case["file"], "nontrivial": n > 0, "obs": {"file": case["file"], "monitored_calls": n,
+                                                                                "tests_started": rep["counters"].get("tests_started", 0)}}
 
 
 def run_example(case, ctx):
@@ -182,6 +228,8 @@ def run_case(case, ctx):
         return run_example(case, ctx)
     if case["family"] == "nearspan":
         return run_nearspan(case, ctx)
+    if case["family"] == "testsuite":
+        return run_testsuite(case, ctx)
     rng = ctx.rng("c04", case["family"], case["i"])
     with warnings.catch_warnings():
         warnings.simplefilter("ignore")
